@@ -48,15 +48,16 @@ def run(ctx):
     ctx.harness(binary, ["-plans", pdir, "-out", ctx.path("seq.ndjson"), "-conc", ctx.path("conc.ndjson"),
                          "-seed", ctx.seed, "-hist", ctx.q(50, 250), "-maxops", ctx.q(160, 400),
                          "-npar", ctx.q(12, 150), "-nconc", ctx.q(60, 1200), "-nstress", ctx.q(6, 100),
+                         "-nrace", ctx.q(30000, 300000), "-nracekeep", ctx.q(1500, 12000),
                          "-sweep", ctx.q(4, 10), "-stats", ctx.path("stats.json")],
-                timeout=1800)
+                timeout=1800, traces=[ctx.path("seq.ndjson"), ctx.path("conc.ndjson")])
     # 4. validate what the real code did
     seq = ctx.load_traces(ctx.path("seq.ndjson"))
     conc = ctx.load_traces(ctx.path("conc.ndjson"))
     rj = ctx.validate(fam, "BTree_Trace", "BTree_Trace.cfg", seq, label="sequential", chunk=25000,
                       timeout=1800)
     rj += ctx.validate(fam, "BTree_Trace", "BTree_Trace.cfg", conc, label="concurrent", chunk=8000,
-                       timeout=1800)
+                       timeout=1800, max_rejections=int(os.environ.get("VERIF_MAXREJ", "6")))
     ctx.judge(rj)
     stats = json.load(open(ctx.path("stats.json")))
     ctx.extra["plans"] = len(plans)
@@ -69,6 +70,9 @@ def run(ctx):
         "parallel clones: per-goroutine logs are written one after the other (trees of different goroutines "
         "share nothing in the model, so every merge order is equivalent)",
         "concurrent wrapper histories: inv/res logged outside the wrapper's lock; TLC searches for a linearization",
+        "race rounds: inv/res ordered by a global atomic sequence number drawn before the call / after its return; "
+        "only rounds whose calls really overlapped are kept",
+        "the generator picks 'present' keys from its own bookkeeping of the calls it issued, never from the tree",
         "limits n >= 0 only (a negative limit makes iterWalk panic in make(); outside the statement)",
     ]
     return ctx.finish(
